@@ -35,7 +35,13 @@ def Val.null : Val := .atom "null"
 def Val.isNull : Val → Bool
   | .atom "null" => true
   | _ => false
-def Val.str (s : String) : Val := .atom ("\"" ++ s ++ "\"")
+/-- JSON escapes of `json.dumps` for ASCII text. -/
+def jsonEscape (s : String) : String :=
+  String.ofList (s.toList.flatMap (fun c =>
+    if c == '"' then ['\\', '"'] else if c == '\\' then ['\\', '\\'] else if c == '\n' then ['\\', 'n']
+    else if c == '\t' then ['\\', 't'] else if c == '\r' then ['\\', 'r'] else [c]))
+
+def Val.str (s : String) : Val := .atom ("\"" ++ jsonEscape s ++ "\"")
 
 abbrev Ctx := List (String × Val)
 
@@ -192,12 +198,34 @@ def constructAll : List Node → Nat → Option (Nat × Err)
 
 def unquote (t : String) : String := String.ofList ((t.toList.drop 1).take (t.length - 2))
 
+/-- The text a JSON string token denotes (the escapes `json.dumps` produces for ASCII text: `\"`, `\\`, `\n`, `\t`, `\r`). -/
+def jsonUnescape : List Char → List Char
+  | '\\' :: '"' :: rest => '"' :: jsonUnescape rest
+  | '\\' :: '\\' :: rest => '\\' :: jsonUnescape rest
+  | '\\' :: 'n' :: rest => '\n' :: jsonUnescape rest
+  | '\\' :: 't' :: rest => '\t' :: jsonUnescape rest
+  | '\\' :: 'r' :: rest => '\r' :: jsonUnescape rest
+  | c :: rest => c :: jsonUnescape rest
+  | [] => []
+
+def strOfToken (t : String) : String := String.ofList (jsonUnescape (unquote t).toList)
+
+/-- Python `repr` of a `str`: single quotes unless the text holds a single quote and no double quote; the quote in use,
+    backslashes and the common control characters are escaped. -/
+def pyStrRepr (s : String) : String :=
+  let cs := s.toList
+  let q : Char := if cs.contains '\'' && !cs.contains '"' then '"' else '\''
+  let esc : Char → List Char := fun c =>
+    if c == '\\' then ['\\', '\\'] else if c == q then ['\\', q]
+    else if c == '\n' then ['\\', 'n'] else if c == '\t' then ['\\', 't'] else if c == '\r' then ['\\', 'r'] else [c]
+  String.ofList (q :: (cs.flatMap esc) ++ [q])
+
 def pyAtomRepr (t : String) : String :=
-  if t.startsWith "\"" then "'" ++ unquote t ++ "'"
+  if t.startsWith "\"" then pyStrRepr (strOfToken t)
   else if t == "null" then "None" else if t == "true" then "True" else if t == "false" then "False" else t
 
 mutual
-/-- Python `repr` of a JSON-native value (strings without quotes or escapes). -/
+/-- Python `repr` of a JSON-native value. -/
 def pyRepr : Val → String
   | .atom t => pyAtomRepr t
   | .arr xs => "[" ++ pyReprList xs ++ "]"
@@ -209,7 +237,7 @@ end
 
 /-- Python `str(value)`: strings as they are, everything else as `repr`. -/
 def pyStr : Val → String
-  | .atom t => if t.startsWith "\"" then unquote t else pyAtomRepr t
+  | .atom t => if t.startsWith "\"" then strOfToken t else pyAtomRepr t
   | v => pyRepr v
 
 def renderTemplate (parts : List TPart) (vals : List (String × Val)) : String :=
